@@ -24,6 +24,7 @@ import OFV.Proofs.C03Exact
 import OFV.Proofs.C03Main
 import OFV.Proofs.C03Boson
 import OFV.Proofs.C03Tensor
+import OFV.Proofs.C03WeylMain
 import Mathlib.Tactic.NormNum
 
 namespace OFV.C03
@@ -268,6 +269,30 @@ theorem normal_ordered_idempotent (a : Op) (va : ∀ e ∈ a, ∀ f ∈ e.1, f.2
   obtain ⟨_, va', _⟩ := normal_ordered_fermion_wellformed 0 a va
   exact (canonicity_fermion (normalOrdered 0 .fermion a) a va' va).1
     (fun s out => normal_ordered_sound_melF a va out s)
+
+/-! ## canonicity (bosons, quadratures): polynomial representation
+
+Normal-ordered monomials `Π_j (x_j)^{m_j} (∂_j)^{n_j}` are linearly independent: among the terms
+with different coefficients take one with the fewest lowering factors, `n0`, and evaluate on
+`x^{n0}` (`weyl_independent`).  Exponent vectors are the canonical (`Trimmed`) ones the driver
+enumerates. -/
+
+/-- **Canonicity, bosons**: two BosonOperators have the same coefficients `⟨x^out| · |x^s⟩` in
+the executable Spec for all canonical exponent vectors IF AND ONLY IF their normal-ordered
+forms have equal coefficients. -/
+theorem canonicity_boson (a b : Op) (va : ∀ e ∈ a, ∀ f ∈ e.1, f.2 < 2) (vb : ∀ e ∈ b, ∀ f ∈ e.1, f.2 < 2) :
+    (∀ s out, Trimmed s → Trimmed out →
+      Spec.GV.coeff (Spec.applyOp .boson a s) out = Spec.GV.coeff (Spec.applyOp .boson b s) out) ↔
+    ∀ t, Dict.getD (normalOrdered 0 .boson a) t 0 = Dict.getD (normalOrdered 0 .boson b) t 0 :=
+  canonicity_boson_iff a b va vb
+
+/-- **Canonicity, quadratures**, for every `ħ ≠ 0`. -/
+theorem canonicity_quad (hbar : GQ) (hh : hbar ≠ 0) (a b : Op)
+    (va : ∀ e ∈ a, ∀ f ∈ e.1, f.2 < 2) (vb : ∀ e ∈ b, ∀ f ∈ e.1, f.2 < 2) :
+    (∀ s out, Trimmed s → Trimmed out →
+      Spec.GV.coeff (Spec.applyOp (.quad hbar) a s) out = Spec.GV.coeff (Spec.applyOp (.quad hbar) b s) out) ↔
+    ∀ t, Dict.getD (normalOrdered 0 (.quad hbar) a) t 0 = Dict.getD (normalOrdered 0 (.quad hbar) b) t 0 :=
+  canonicity_quad_iff hbar hh a b va vb
 
 /-! ## the exact regime: the real tolerance versus tolerance 0
 
